@@ -42,7 +42,15 @@ class Construction:
     first_tag = len(strings)
     for i in range(len(strings)-1, 0, -1):
       try:
-        self._initialize_tag(*(gfapy.Field._parse_gfa_tag(strings[i])))
+        n, t, s = gfapy.Field._parse_gfa_tag(strings[i])
+        if self.vlevel == 0:
+          # which fields are tags does not depend on the validation level:
+          # a field is a tag only if it would be accepted as a tag at level 1
+          if n in self._data:
+            raise gfapy.NotUniqueError(
+              "Tag {} found multiple times".format(n))
+          gfapy.Field._parse_gfa_field(s, t, safe = True, fieldname = n)
+        self._initialize_tag(n, t, s)
       except:
         break
       first_tag = i
